@@ -114,6 +114,13 @@ def ListOf(t, maxlen):
     return TypeDesc("list", t, maxlen)
 
 
+Text = TypeDesc("text", None)
+
+
+def TextLen(maxlen=None):
+    return TypeDesc("text", maxlen)
+
+
 def _reg(kind):
     def factory(*a, **k):
         def deco(f):
@@ -284,3 +291,49 @@ def same_state(a, b, ignore=()):
         return x == y
 
     return rec(a, b)
+
+
+# ---- ghost file system (C19): natively a file in a fresh temporary directory --------------------
+_TMPDIRS = []
+
+
+def _cleanup_tmpdirs():
+    import shutil
+    for d in _TMPDIRS:
+        shutil.rmtree(d, ignore_errors=True)
+
+
+def ghost_file(text=None):
+    """a fresh path; the file is absent (text None) or holds exactly the given ASCII text"""
+    import atexit
+    import pathlib
+    import tempfile
+    if not _TMPDIRS:
+        atexit.register(_cleanup_tmpdirs)
+    d = tempfile.mkdtemp(prefix="pyvc_fs_")
+    _TMPDIRS.append(d)
+    p = pathlib.Path(d) / "seqcnt.txt"
+    if text is not None:
+        with open(p, "w", newline="", encoding="ascii") as f:
+            f.write(text)
+    return p
+
+
+def ghost_remove(p):
+    import os
+    os.remove(p)
+
+
+def file_text(p):
+    """raw text of the file (no newline translation), None if it is absent"""
+    if not p.exists():
+        return None
+    with open(p, "r", newline="", encoding="ascii") as f:
+        return f.read()
+
+
+# ---- exact arithmetic on floats (C14) ------------------------------------------------------------
+def within(x, p, q, a, b):
+    """|x - p/q| <= a/b, evaluated exactly (x: int or float; p, q, a, b integers, q > 0, b > 0)"""
+    from fractions import Fraction
+    return abs(Fraction(x) - Fraction(p, q)) <= Fraction(a, b)
